@@ -202,8 +202,9 @@ class GeminiClientProtocol(asyncio.Protocol):
                             break
                 try:
                     body = self.buffer.decode(charset)
-                except (UnicodeDecodeError, LookupError) as e:
-                    # Undecodable body, or a charset label Python does not know
+                except (ValueError, LookupError) as e:
+                    # Undecodable body (UnicodeError is a ValueError), or a charset
+                    # label Python does not know or refuses ("undefined", NUL, ...)
                     self.response_future.set_exception(e)
                     return
             else:
@@ -436,8 +437,9 @@ class TitanClientProtocol(asyncio.Protocol):
                             break
                 try:
                     body = self.buffer.decode(charset)
-                except (UnicodeDecodeError, LookupError) as e:
-                    # Undecodable body, or a charset label Python does not know
+                except (ValueError, LookupError) as e:
+                    # Undecodable body (UnicodeError is a ValueError), or a charset
+                    # label Python does not know or refuses ("undefined", NUL, ...)
                     self.response_future.set_exception(e)
                     return
             else:
